@@ -71,7 +71,11 @@ pub trait AggregateRequestBound: RequestBound {
 /// necessarily yields `delta=1`, which results in `A=0` being the
 /// first element yielded by `step_offsets`.
 pub fn step_offsets(rb: &'_ (impl RequestBound + ?Sized)) -> impl Iterator<Item = Offset> + '_ {
-    rb.steps_iter().map(Offset::closed_from_time_zero)
+    rb.steps_iter()
+        // an interval of length zero does not correspond to any offset (a
+        // closed interval [0, A] has length A + 1 >= 1), so skip such steps
+        .filter(|delta| delta.is_non_zero())
+        .map(Offset::closed_from_time_zero)
 }
 
 mod aggregate;
